@@ -44,9 +44,17 @@ the model of the analysis and of the evaluator, for all expressions, rules and a
 * `optimised_result_is_a_solution_of_the_unoptimised_assembler` — whenever the optimised
   assembler succeeds (budget ≥ 2), the state it reads its output from, with every mark cleared, is
   a fixed point of the *unoptimised* assembler's strict pass: the unoptimised assembler, handed
-  that result, recomputes every item to the same value, stable and silent.  (What is not proved is
-  that the unoptimised iteration, started from scratch, walks to this same fixed point; that is
-  the four-way comparison of every run.)
+  that result, recomputes every item to the same value, stable and silent;
+* **`C08_static_switch`** — the statement itself, with no hypothesis on the program: for every option set
+  with the optimisation on and a budget of at least two passes, every file set and every root list,
+  `assemble` with and without the optimisation returns the same error or the same bits, spans and
+  symbols.  It is the end of a chain: the two front ends agree up to marks
+  (`the_two_front_ends_agree_up_to_marks`), the decidable facts about constants the simulation needs hold
+  of every front-end result (`front_end_facts`), the two iterations run in lockstep pass by pass
+  (`static_switch_pass_by_pass`, `static_switch_lockstep`), a stable pass leaves a fixed point
+  (`stable_pass_leaves_a_fixed_point`), and what is emitted reads values, never marks.  The budget of one
+  pass is excluded because the statement is false there (finding F29, open: without the optimisation a
+  program with a forward reference cannot converge in one pass).
 
 Stating these theorems is what exposed findings F30–F34 (each a stale frozen encoding in the
 pinned tree, demonstrated on the real binary and repaired): a parameter named like a constant,
@@ -54,7 +62,9 @@ an argument read in the rule's scope, a block argument assigning a local, symbol
 like a built-in function, a candidate still unresolved when the instruction was frozen, and F35:
 the side condition the first version of these theorems carried ("no rule parameter is *named*
 `incbin`, `incbinstr` or `inchexstr`") was run on the real binary, failed there too, and was
-repaired; no side condition is left.
+repaired; no side condition is left.  The lockstep simulation exposed two more, F36 (a constant frozen
+in the first pass reported "unchanged") and F37 (`eval_simple` resolved a callee named like a built-in
+through a user symbol), both repaired.
 -/
 namespace Casm.C08
 
